@@ -22,10 +22,11 @@ RULE = (
     "det-enum/det-gen: 2-3 logical threads each calling dispose() 1-3 times on one shared object under Engine DET "
     "(vlib/det.py; line-level yield points, optionally per-bytecode in Disposable.dispose); det-enum explores every schedule "
     "with <=2 (two threads) / <=1 (three threads) preemptions in quick and <=3 / <=2 in thorough; det-gen draws the shape and "
-    "<=3 preemption points. ScheduledDisposable runs on ImmediateScheduler and on an EventLoopScheduler whose loop thread is a "
-    "controlled thread. Oracle: action/wrapped dispose count == 1, is_disposed True right after every dispose() that returned "
-    "(Disposable, BooleanDisposable, ScheduledDisposable on ImmediateScheduler), event-loop disposal happens on the loop "
-    "thread, no deadlock, no escaped exception. "
+    "<=3 preemption points. ScheduledDisposable runs on ImmediateScheduler, on an EventLoopScheduler whose loop thread is a "
+    "controlled thread and on the TimeoutScheduler whose timer threads are controlled threads on the fake clock (K<=1 for all "
+    "shapes, K<=2 for 1||1 in quick and for 1||1, 2||1, 1||1||1 in thorough, cut into slices). Oracle: action/wrapped dispose count == 1, is_disposed True right after every dispose() that returned "
+    "(Disposable, BooleanDisposable, ScheduledDisposable on ImmediateScheduler), event-loop / timer disposal happens on a "
+    "scheduler thread (never on a program thread), no deadlock, no escaped exception. "
     "Non-trivial: hist = >=2 dispose calls (disposable), >=1 (boolean), dispose followed by a scheduler run (scheduled); det = "
     "two threads' dispose() calls overlapped in at least one explored schedule. Distinct = distinct case JSON."
 )
@@ -87,8 +88,15 @@ def _det_enum(tier):
         yield {"cls": "boolean", "threads": _threads(shape), "sched": {"mode": "all", "K": K}}
         for kind in disp.KINDS:
             yield {"cls": "scheduled", "on": "immediate", "item": kind, "threads": _threads(shape), "sched": {"mode": "all", "K": min(K, 2)}}
-    for shape in [(1, 1), (2, 1)] + ([(1, 1, 1)] if tier != "quick" else []):
-        yield {"cls": "scheduled", "on": "eventloop", "item": "plain", "threads": _threads(shape), "sched": {"mode": "all", "K": 1}}
+    # ScheduledDisposable on schedulers with their own (controlled) threads: the EventLoopScheduler loop thread and the
+    # TimeoutScheduler timer threads (fake clock).  K=2 explorations are cut into slices so that they spread over shards.
+    for on in ("eventloop", "timeout"):
+        for shape in [(1, 1), (2, 1)] + ([(1, 1, 1), (2, 2)] if tier != "quick" else []):
+            yield {"cls": "scheduled", "on": on, "item": "plain", "threads": _threads(shape), "sched": {"mode": "all", "K": 1}}
+        k2_shapes = [((1, 1), 8)] if tier == "quick" else [((1, 1), 16), ((2, 1), 32), ((1, 1, 1), 32)]
+        for shape, m in k2_shapes:
+            for i in range(m):
+                yield {"cls": "scheduled", "on": on, "item": "empty" if i % 2 else "plain", "threads": _threads(shape), "slice": [i, m], "sched": {"mode": "all", "K": 2}}
 
 
 _det_gen = st.one_of(
